@@ -48,6 +48,7 @@ class TLCResult:
         if m:
             self.depth = int(m.group(1))
         self.violated = re.findall(r"Error: Invariant (\S+) is violated", out)
+        self.initial_violation = "is violated by the initial state" in out
         self.violated += re.findall(r"Error: Action property (\S+) is violated", out)
         if "Temporal properties were violated" in out:
             self.violated.append("temporal")
@@ -125,7 +126,7 @@ def run(module, cfg=None, cfg_text=None, workers=16, timeout=600, env=None, simu
     r = TLCResult(out, time.time() - t0)
     if "Parsing or semantic analysis failed" in out or "java.lang." in out and "Exception" in out and "TLC threw" in out:
         raise TLCError("TLC failed on %s:\n%s" % (module, out[-3000:]))
-    if r.generated == 0 and not simulate:
+    if r.generated == 0 and not simulate and not r.initial_violation:
         raise TLCError("TLC produced no states on %s:\n%s" % (module, out[-3000:]))
     return r
 
